@@ -419,6 +419,108 @@ def c16_run(case):
     return None
 
 
+# ----------------------------------------------------------------------------- C18
+def tclosure(n, edges):
+    """must-run-before relation: (a, b) if a requires b through one or more links"""
+    req = {i: set() for i in range(n)}
+    for a, b in edges:
+        req[a].add(b)
+    return {(a, b) for a in range(n) for b in closure(req, [a])}
+
+
+def c18_cases(tier, rng):
+    maxn = 4
+    for n in range(1, maxn + 1):
+        for edges in all_digraphs(n):
+            if not is_acyclic(n, edges):
+                continue
+            for v in range(n):
+                yield {'kind': 'c18-op', 'n': n, 'edges': edges, 'ops': [['bypass', v]]}
+            subsets = [list(c) for k in (0, 1, 2) for c in itertools.combinations(range(n), k)]
+            if n == 4 and tier == 'quick':
+                subsets = [s_ for s_ in subsets if rng.random() < 0.35]
+            for st in subsets:
+                for en in subsets:
+                    if n >= 3 and rng.random() > (0.3 if tier == 'quick' else 1.0):
+                        continue
+                    ks, ke = rng.random() < 0.5, rng.random() < 0.5
+                    yield {'kind': 'c18-op', 'n': n, 'edges': edges, 'ops': [['between', st, en, ks, ke]]}
+            for keep in subsets[:4]:
+                yield {'kind': 'c18-op', 'n': n, 'edges': edges, 'ops': [['keep', keep]]}
+    k = 300 if tier == 'quick' else 6000
+    for _ in range(k):
+        n = rng.randint(4, 9 if tier == 'quick' else 12)
+        edges = random_dag(rng, n, rng.choice([0.2, 0.35, 0.5]))
+        ops = []
+        for _o in range(rng.randint(1, 3)):
+            r = rng.random()
+            if r < 0.4:
+                ops.append(['bypass', rng.randrange(n)])
+            elif r < 0.8:
+                ops.append(['between', rng.sample(range(n), rng.randint(0, 3)), rng.sample(range(n), rng.randint(0, 3)),
+                            rng.random() < 0.5, rng.random() < 0.5])
+            else:
+                ops.append(['keep', rng.sample(range(n), rng.randint(0, n))])
+        yield {'kind': 'c18-op', 'n': n, 'edges': edges, 'ops': ops}
+
+
+def c18_run(case):
+    n, edges = case['n'], {tuple(e) for e in case['edges']}
+    s, jobs = build(n, sorted(edges))
+    alive = set(range(n))
+    for op in case['ops']:
+        if op[0] == 'bypass':
+            v = op[1]
+            if v not in alive:
+                try:
+                    s.bypass_and_remove(jobs[v])
+                except ValueError:
+                    continue
+                return 'bypass_and_remove of a non-member did not raise ValueError'
+            before = {(a, b) for (a, b) in tclosure(n, edges) if a != v and b != v}
+            s.bypass_and_remove(jobs[v])
+            ups = {b for (a, b) in edges if a == v}
+            downs = {a for (a, b) in edges if b == v}
+            new = {(a, b) for (a, b) in edges if a != v and b != v} | {(d, u) for d in downs for u in ups if d != u}
+            alive.discard(v)
+            exp_edges = new
+            exp_alive = set(alive)
+            if tclosure(n, new) != before:
+                return 'reference model broken'      # sanity of the oracle itself
+        elif op[0] == 'keep':
+            keep = set(op[1])
+            s.keep_only([jobs[i] for i in keep])
+            exp_alive = alive & keep
+            exp_edges = {(a, b) for (a, b) in edges if a in exp_alive and b in exp_alive}
+        else:
+            _, st, en, ks, ke = op
+            st = [i for i in st if i in alive]
+            en = [i for i in en if i in alive]
+            suc = {i: set() for i in range(n)}
+            req = {i: set() for i in range(n)}
+            for a, b in edges:
+                if a in alive and b in alive:
+                    req[a].add(b)
+                    suc[b].add(a)
+            down = closure(suc, st) if st else set(alive)
+            up = closure(req, en) if en else set(alive)
+            exp_alive = (down & up) | (set(st) if ks else set()) | (set(en) if ke else set())
+            s.keep_only_between(starts=[jobs[i] for i in st], ends=[jobs[i] for i in en], keep_starts=ks, keep_ends=ke)
+            exp_edges = {(a, b) for (a, b) in edges if a in exp_alive and b in exp_alive}
+        got_alive = {i for i in range(n) if jobs[i] in s.jobs}
+        if got_alive != exp_alive or len(s.jobs) != len(exp_alive):
+            return 'after %s: kept jobs %s, documented %s' % (op, sorted(got_alive), sorted(exp_alive))
+        got_edges = {(a, jobs.index(r)) for a in got_alive for r in jobs[a].required if r in jobs}
+        if got_edges != exp_edges or any(r not in jobs for a in got_alive for r in jobs[a].required):
+            return 'after %s: requirements %s, documented %s' % (op, sorted(got_edges), sorted(exp_edges))
+        if op[0] == 'bypass' and tclosure(n, got_edges) != before:
+            return 'after %s: must-run-before relation among the remaining jobs changed' % (op,)
+        alive, edges = exp_alive, exp_edges
+        if not s.check_cycles():
+            return 'after %s: no longer acyclic' % (op,)
+    return None
+
+
 # ----------------------------------------------------------------------------- C19
 # short programs interpreted both by the library and by a reference model of the documented
 # semantics (the model is written from the property statement, not from the code)
@@ -728,6 +830,9 @@ def rt_run(case):
 PROPS = {
     'C15': (c15_cases, c15_run, 'all loop-free digraphs up to 4 (quick) / sampled 5 (thorough) nodes at three '
             'placements, random digraphs on 5-8 nodes, add/remove mutation sequences; non-trivial = at least one edge'),
+    'C18': (c18_cases, c18_run, 'all DAGs up to 4 nodes: every bypass target, start/end subsets of size <= 2 with random keep flags, '
+            'keep_only subsets; random DAGs up to 9/12 nodes with sequences of 1-3 operations; compared with the documented subset, the exact '
+            'requirement edges and (bypass) the transitive must-run-before relation; non-trivial = at least one edge'),
     'C19': (c19_cases, c19_run, 'random programs of 1-7 construction operations over 6 jobs, 2 schedulers, nested '
             'list/tuple/set arguments up to depth 3, interpreted by the library and by a reference model of the documented '
             'semantics, compared after every operation; non-trivial = every distinct program'),
